@@ -61,7 +61,16 @@ lines = C.lines
 
 
 def run(ctx):
-    C.run_prop(ctx, ID, MOD)
+    C.run_prop(ctx, ID, MOD, rule_extra=(
+        "C07 also: about 60 % of the metadata operations go through HELD NODE WRAPPERS (op `hmeta`, `ctr_common.add_wrappers` with "
+        "p_dup: a wrapper attaches a schema that another wrapper of the node attached after the first one was obtained - refused, one "
+        "object per schema whoever asks): several live wrappers of one node, obtained by different navigation routes (mc[path], get, "
+        "segment by segment, parent of a child, values(), visititems, query results, the container object itself for the root), kept "
+        "across later operations (incl. move / copy / delete) and used in turn, `.meta` taken afresh at each use. After EVERY "
+        "sub-operation the node's metadata is read through EVERY live wrapper of the node, through a new lookup by path and through a "
+        "kept `meta` handle that did the writing (`observe_meta`, oracle only): keys() / len = schema names of the objects in the raw "
+        "metadata directory; `name in meta` and get(name) find an object iff a compatible one is stored now; the stored object of the "
+        "requested schema comes back equal to the stored bytes. So every wrapper has looked at the metadata before another one writes."))
 
 
 def signature(case, detail):
